@@ -240,7 +240,9 @@ func applyIfExistsConfig(t rel.Tuple, dir string, fs afero.Fs, dryRun bool) (err
 		return fs.RemoveAll(dir)
 	case ifExistsReplace:
 		if dryRun {
-			return nil
+			// the existing entry is gone by the time the payload is written:
+			// validate the payload against an empty tree
+			return applyFilesFields(t, dir, afero.NewMemMapFs(), true)
 		}
 		if err := fs.RemoveAll(dir); err != nil {
 			return err
@@ -256,6 +258,10 @@ func applyIfExistsConfig(t rel.Tuple, dir string, fs afero.Fs, dryRun bool) (err
 		}
 		return errors.Errorf("%s: '%s' field must exist", ifExistsConfig, dirField)
 	case ifExistsIgnore:
+		if dryRun {
+			// nothing is written over the existing entry, but the payload must still be valid
+			return applyFilesFields(t, dir, afero.NewMemMapFs(), true)
+		}
 		return nil
 	case ifExistsFail:
 		return errors.Errorf("%s: '%s' exists", ifExistsConfig, dir)
